@@ -2,7 +2,7 @@
 from vlib.core import Group
 from . import common
 
-LEVEL = "proof"
+LEVEL = "other"   # every group is a bounded stand-in (K5): never reported as proof
 EXPLANATION = ("K5 value lemmas on the real bodies of the 21 macro-generated _CP functions and the three refractive-index entry points: "
                "mixture sum over the composition, resolution order formula -> NIST -> error, density fall-back, failing element fails "
                "the call, temporaries released on every exit.  Compositions of up to N elements (N = 3 quick, 5 thorough); parser and "
